@@ -47,6 +47,9 @@ type Contract struct {
 	Ensures  []Clause
 	Modifies []ast.Expr
 	HasMod   bool // a modifies clause is present (possibly "modifies nothing")
+	Allocs   bool // the function may allocate objects visible to the caller
+	AllocT   []string // ... of these kinds (struct short names, "map", "chan", "cell")
+	Devirt   map[string]string
 	ModText  []string
 	LoopInvs map[int][]Clause
 	OnRet    []OnReturn
@@ -138,10 +141,10 @@ type ContractFile struct {
 var labelRe = regexp.MustCompile(`^\[([^\]]+)\]\s*`)
 
 var declKeywords = map[string]bool{"func": true, "extern": true, "field": true, "iface": true, "pure": true, "dropped": true,
-	"ghost": true, "axiom": true, "monitor": true, "lemma": true, "devirt": true}
+	"ghost": true, "axiom": true, "monitor": true, "lemma": true, "devirtall": true}
 var clauseKeywords = map[string]bool{"prop": true, "params": true, "results": true, "recv": true, "requires": true, "ensures": true,
 	"modifies": true, "loop": true, "on": true, "instantiate": true, "strings": true, "inline": true, "mode": true, "decreases": true,
-	"safety": true, "invariant": true, "protects": true, "self": true, "vars": true, "assumes": true, "replay": true}
+	"safety": true, "invariant": true, "protects": true, "self": true, "vars": true, "assumes": true, "replay": true, "allocates": true, "devirt": true}
 
 // desugarSpec rewrites ==> and <==> (lowest precedence, right associative) into calls.
 func desugarSpec(s string) string {
@@ -414,10 +417,10 @@ func parseContractFile(path, pkgPath, pkgName string) (*ContractFile, error) {
 		case "dropped":
 			cf.Dropped = append(cf.Dropped, rest)
 			cur, curMon, curLemma = nil, nil, nil
-		case "devirt":
+		case "devirtall":
 			parts := strings.Split(rest, "=>")
 			if len(parts) != 2 {
-				return nil, fmt.Errorf("%s:%d: devirt Iface => *T", path, rl.line)
+				return nil, fmt.Errorf("%s:%d: devirtall Iface => *T", path, rl.line)
 			}
 			cf.Devirt[strings.TrimSpace(parts[0])] = strings.TrimSpace(parts[1])
 			cur, curMon, curLemma = nil, nil, nil
@@ -618,6 +621,18 @@ func parseContractFile(path, pkgPath, pkgName string) (*ContractFile, error) {
 						cur.Inst[strings.TrimSpace(p[0])] = strings.TrimSpace(p[1])
 					}
 				}
+			case "allocates":
+				cur.Allocs = true
+				cur.AllocT = append(cur.AllocT, fieldsComma(rest)...)
+			case "devirt":
+				parts := strings.Split(rest, "=>")
+				if len(parts) != 2 {
+					return nil, fmt.Errorf("%s:%d: devirt Iface => *T", path, rl.line)
+				}
+				if cur.Devirt == nil {
+					cur.Devirt = map[string]string{}
+				}
+				cur.Devirt[strings.TrimSpace(parts[0])] = strings.TrimSpace(parts[1])
 			case "strings":
 				cur.SMTStr = strings.Contains(rest, "smt")
 			case "inline":
